@@ -1,7 +1,10 @@
 //! C30 — page resource names chosen by the user cannot break the page.
 //!
 //! Request: `<kind> <name-hex> [<name2-hex>]` (names are the UTF-8 bytes of the Rust `String`
-//! handed to the API, `-` = empty).  Kinds = the API entry points that accept a name:
+//! handed to the API, `-` = empty), optionally followed by `@xs` / `@os` = ALSO write the same
+//! document with a cross-reference stream / with object streams + cross-reference stream
+//! (`WriterConfig::modern()`); answer gets ` rdx=<reader stack>` / ` pgo=<page dictionary bytes cut out
+//! of the object stream by the harness' own scanner> rdo=<reader stack>`.  Kinds = the API entry points that accept a name:
 //!   img    Page::add_image(n, img) + Page::draw_image(n, …)                 /XObject, `Do`
 //!   img2   two images n, n2 (both drawn, n first)                           /XObject, `Do` `Do`
 //!   font   Document::add_font_from_bytes(n, ttf) + text().set_font(Font::Custom(n), 12)   /Font, `Tf`
@@ -79,7 +82,7 @@ fn err_class(e: &oxidize_pdf::PdfError) -> String {
 }
 
 /// build the document through the public API and write it with the real writer
-fn build(kind: &str, n: &str, n2: Option<&str>) -> Result<Vec<u8>, String> {
+fn build(kind: &str, n: &str, n2: Option<&str>, cfg: WriterConfig) -> Result<Vec<u8>, String> {
     let mut doc = Document::new();
     let mut page = Page::a4();
     let tiny = || Image::from_raw_data(vec![0x80], 1, 1, ColorSpace::DeviceGray, 8);
@@ -144,7 +147,6 @@ fn build(kind: &str, n: &str, n2: Option<&str>) -> Result<Vec<u8>, String> {
         _ => return Err("bad-request".into()),
     }
     doc.add_page(page);
-    let cfg = WriterConfig { compress_streams: false, use_xref_streams: false, use_object_streams: false, ..Default::default() };
     let mut out = Vec::new();
     {
         let mut w = PdfWriter::with_config(&mut out, cfg);
@@ -255,7 +257,17 @@ fn lib_content_view(content: &[u8]) -> String {
 }
 
 fn run(req: &str) -> String {
-    let parts: Vec<&str> = req.split(' ').collect();
+    let mut parts: Vec<&str> = req.split(' ').collect();
+    // optional last token: `@xs` / `@os` = also write the document with cross-reference streams /
+    // with object streams + cross-reference streams (WriterConfig::modern())
+    let extra = match parts.last() {
+        Some(&"@xs") => "xs",
+        Some(&"@os") => "os",
+        _ => "",
+    };
+    if !extra.is_empty() {
+        parts.pop();
+    }
     if parts.len() < 2 || parts.len() > 3 {
         return "bad-request".into();
     }
@@ -269,7 +281,8 @@ fn run(req: &str) -> String {
         },
         None => None,
     };
-    let pdf = match build(kind, &n, n2.as_deref()) {
+    let classic = WriterConfig { compress_streams: false, use_xref_streams: false, use_object_streams: false, ..Default::default() };
+    let pdf = match build(kind, &n, n2.as_deref(), classic) {
         Ok(p) => p,
         Err(e) => return e,
     };
@@ -319,7 +332,96 @@ fn run(req: &str) -> String {
     if std::env::var("C30_SHOW").is_ok() {
         eprintln!("--- page {} ---\n{}\n--- content ---\n{}", pnum, String::from_utf8_lossy(pbytes), String::from_utf8_lossy(&content));
     }
-    format!("pid={} page={} content={} lp={} lc={} rd={}", pnum, hex(pbytes), hex(&content), lp, lc, rd)
+    let mut ans = format!("pid={} page={} content={} lp={} lc={} rd={}", pnum, hex(pbytes), hex(&content), lp, lc, rd);
+    if extra == "xs" {
+        // the same document with a cross-reference stream (objects stay direct): reader stack only
+        let xs = WriterConfig { compress_streams: false, use_xref_streams: true, use_object_streams: false, ..Default::default() };
+        let rdx = match build(kind, &n, n2.as_deref(), xs) {
+            Ok(p) => reader_view(&p, category(kind)),
+            Err(e) => e.replace(' ', "_"),
+        };
+        ans.push_str(&format!(" rdx={}", rdx));
+    }
+    if extra == "os" {
+        // the same document with object streams: the page dictionary is a member of an object
+        // stream (serialised by `write_object_value_to_buffer`); `pgo` = its bytes cut out by the
+        // harness' own object-stream scanner, `rdo` = the crate's reader stack on that file
+        let os = WriterConfig { compress_streams: false, ..WriterConfig::modern() };
+        let (pgo, rdo) = match build(kind, &n, n2.as_deref(), os) {
+            Ok(p) => {
+                if let Ok(d) = std::env::var("C30_DUMP_OS") {
+                    let _ = std::fs::write(d, &p);
+                }
+                let pgo = match objstm_member(&p, pnum) {
+                    Ok(b) => hex(&b),
+                    Err(e) => format!("err:{}", e),
+                };
+                (pgo, reader_view(&p, category(kind)))
+            }
+            Err(e) => (e.replace(' ', "_"), "err:build".to_string()),
+        };
+        ans.push_str(&format!(" pgo={} rdo={}", pgo, rdo));
+    }
+    ans
+}
+
+/// the bytes of member object `num` of the object stream(s) of a file written with object
+/// streams: own scanner (`/Type /ObjStm` dictionaries, `/N`, `/First`, `/Length`, optional
+/// `/Filter /FlateDecode`), independent of the crate's reader
+fn objstm_member(pdf: &[u8], num: usize) -> Result<Vec<u8>, String> {
+    use std::io::Read;
+    let int_after = |d: &[u8], key: &[u8]| -> Option<usize> {
+        let p = find(d, key, 0)? + key.len();
+        let s: String = d[p..].iter().skip_while(|b| **b == b' ').take_while(|b| b.is_ascii_digit()).map(|&b| b as char).collect();
+        s.parse().ok()
+    };
+    let mut from = 0;
+    let mut seen = 0;
+    while let Some(t) = find(pdf, b"/Type /ObjStm", from) {
+        from = t + 1;
+        seen += 1;
+        // dictionary = from the preceding ` obj\n<<` to the following `>>\nstream\n`
+        let ds = (0..t).rev().find(|&i| pdf[i..].starts_with(b" obj\n<<")).ok_or("objstm:dict-start")?;
+        let de = find(pdf, b">>\nstream\n", t).ok_or("objstm:dict-end")?;
+        let dict = &pdf[ds..de];
+        let n = int_after(dict, b"/N ").ok_or("objstm:N")?;
+        let first = int_after(dict, b"/First ").ok_or("objstm:First")?;
+        let len = int_after(dict, b"/Length ").ok_or("objstm:Length")?;
+        let data0 = de + 10;
+        if data0 + len > pdf.len() {
+            return Err("objstm:short".into());
+        }
+        let raw = &pdf[data0..data0 + len];
+        let data: Vec<u8> = if find(dict, b"/FlateDecode", 0).is_some() {
+            let mut out = Vec::new();
+            flate2::read::ZlibDecoder::new(raw).read_to_end(&mut out).map_err(|_| "objstm:inflate")?;
+            out
+        } else {
+            raw.to_vec()
+        };
+        if first > data.len() {
+            return Err("objstm:first".into());
+        }
+        let nums: Vec<usize> = String::from_utf8_lossy(&data[..first]).split_ascii_whitespace().filter_map(|x| x.parse().ok()).collect();
+        if nums.len() != 2 * n {
+            return Err("objstm:header".into());
+        }
+        for i in 0..n {
+            if nums[2 * i] == num {
+                let s = first + nums[2 * i + 1];
+                let e = if i + 1 < n { first + nums[2 * i + 3] } else { data.len() };
+                if s > e || e > data.len() {
+                    return Err("objstm:offsets".into());
+                }
+                let mut b = data[s..e].to_vec();
+                while matches!(b.last(), Some(b' ' | b'\n' | b'\r')) {
+                    b.pop();
+                }
+                return Ok(b);
+            }
+        }
+    }
+    Err(if seen == 0 { "objstm:none".into() } else { "objstm:not-a-member".to_string() })
 }
 
 /// the crate's full reader stack on the whole file
@@ -405,7 +507,13 @@ fn case(kind: &str, n: &str, n2: Option<&str>, fam: &str) -> Option<Case> {
         Some(x) => format!("{} {} {}", kind, hex(n.as_bytes()), hex(x.as_bytes())),
         None => format!("{} {}", kind, hex(n.as_bytes())),
     };
-    Some(Case::new(req, format!("{} {} {} {}{}", kind, fam, cls, len, if nt { " nt" } else { "" })))
+    // fam `…@xs` / `…@os`: the writer-configuration marker goes to the end of the request
+    let (fam, req) = match fam.rsplit_once('@') {
+        Some((f, m)) => (f, format!("{} @{}", req, m)),
+        None => (fam, req),
+    };
+    let cfg = if req.ends_with("@xs") { " cfg-xs" } else if req.ends_with("@os") { " cfg-os" } else { "" };
+    Some(Case::new(req, format!("{} {} {} {}{}{}", kind, fam, cls, len, cfg, if nt { " nt" } else { "" })))
 }
 
 fn random_name(rng: &mut Rng, max_pieces: u64) -> String {
@@ -439,6 +547,30 @@ fn gen(rng: &mut Rng, tier: Tier) -> Vec<Case> {
     for k in KINDS {
         for n in fixed {
             push(case(k, n, None, "fixed"));
+        }
+    }
+    // 1b. other writer configurations.  Cross-reference stream (cheap): every fixed name on `img`,
+    //     the first eight on the other entry points that do not embed a font program (all in thorough).  Object streams (each file carries a
+    //     10^6-entry cross-reference stream, seconds per case): a handful of names in quick
+    for k in KINDS {
+        if k == "font" || k == "gfont" {
+            continue;
+        }
+        for n in fixed.iter().take(if k == "img" || tier == Tier::Thorough { fixed.len() } else { 8 }) {
+            push(case(k, n, None, "fixed@xs"));
+        }
+    }
+    //     (two more are in corpus/C30/ok_other_writer_configs.req)
+    let os_quick: [(&str, &str, Option<&str>); 3] = [("img", "A#42", None), ("img", "A/é(", None), ("img2", "Im1", Some("Im 1"))];
+    for (k, n, n2) in os_quick {
+        push(case(k, n, n2, if n2.is_some() { "pair@os" } else { "fixed@os" }));
+    }
+    if tier == Tier::Thorough {
+        for n in fixed.iter().take(33) {
+            push(case("img", n, None, "fixed@os"));
+        }
+        for k in ["form", "pat", "sh", "mc", "shop"] {
+            push(case(k, "Nm1", None, "fixed@os"));
         }
     }
     // 2. every ASCII code point (and a table of non-ASCII ones) at the start / middle / end of a
@@ -498,5 +630,6 @@ fn gen(rng: &mut Rng, tier: Tier) -> Vec<Case> {
 }
 
 fn main() {
-    harness_main(gen, run, Limits::default());
+    // object-stream cases take seconds each in the unoptimised build (10^6-entry xref stream)
+    harness_main(gen, run, Limits { per_case: std::time::Duration::from_secs(90), ..Limits::default() });
 }
